@@ -867,17 +867,47 @@ func rulesC12(c *Ctx) {
 		// skip conditions agree: client skips absent/null/non-primitive; server expects no header for absent/null
 		gen := c.Fn(pM, "", "generateParamHeaders")
 		gg := gen.Graph()
+		// the tests that stand between an annotated parameter and its header (absent, null, not a primitive, not
+		// encodable), counted as atomic tests of the gate of the assignment, however they are spread over if statements
 		skips := 0
-		inspectNoLit(gen.Body, func(x ast.Node) {
-			if b, ok := x.(*ast.BranchStmt); ok && b.Tok == token.CONTINUE {
-				skips++
-				_ = gg
+		for _, w := range Writes(gen.Body, false) {
+			if _, _, isIx := indexOf(w.LHS); isIx {
+				if n, _ := gg.gateLeaves(gg.VertexOf(w.Stmt), true); n > skips {
+					skips = n
+				}
 			}
-		})
+		}
 		okNull := false
 		for _, cv := range g.condVertices() {
 			cond := g.Node(cv - 1).(ast.Expr)
-			if b, ok := ast.Unparen(cond).(*ast.BinaryExpr); ok && b.Op == token.LOR && strings.Contains(exprStr(cond), "\"null\"") && strings.Contains(exprStr(cond), "!argExists") {
+			var leaves []ast.Expr
+			var flat func(e ast.Expr)
+			flat = func(e ast.Expr) {
+				e = ast.Unparen(e)
+				if b, ok := e.(*ast.BinaryExpr); ok && (b.Op == token.LOR || b.Op == token.LAND) {
+					flat(b.X)
+					flat(b.Y)
+					return
+				}
+				leaves = append(leaves, e)
+			}
+			flat(cond)
+			hasNull, hasAbsent := false, false
+			for _, l := range leaves {
+				if _, y, op, ok := binaryCmp(l); ok && op == token.EQL {
+					if sv, isC := vph.ConstString(y); isC && sv == "null" {
+						hasNull = true
+					}
+				}
+				if inner, neg := stripNot(l); neg {
+					if bt, isB := vph.TypeOf(inner).(*types.Basic); isB && bt.Info()&types.IsBoolean != 0 {
+						if _, isID := ast.Unparen(inner).(*ast.Ident); isID {
+							hasAbsent = true
+						}
+					}
+				}
+			}
+			if hasNull && hasAbsent {
 				okNull = true
 			}
 		}
